@@ -348,7 +348,7 @@ def run_config(desc, cfg, rtol=1e-9):
     tol = b2f(cfg['tol'])
     max_iter = cfg['max_iter']
     items = cfg['items']          # None = callbacks argument not given
-    rec = dict(desc=desc, cfg=cfg, fails=[], suspected=[], skipped=None)
+    rec = dict(desc=desc, cfg=cfg, fails=[], quirks=[], skipped=None)
 
     def fail(kind, **kw):
         rec['fails'].append(dict(kind=kind, **jsonable(kw)))
@@ -423,8 +423,13 @@ def run_config(desc, cfg, rtol=1e-9):
         if not rel_close(diffs[i], true, rtol):
             if c_in[i].ndim == 2 and i == 0:
                 # initial estimate of non-LinearGAM models has shape (m, 1): (m,1)-(m,) broadcasts to (m,m)
-                rec['suspected'].append(dict(kind='first recorded diff is not the relative coefficient change '
-                                                  '(initial estimate has shape (m,1))', recorded=diffs[i], true=true))
+                # the property speaks of the *recorded* diff; here it is the Frobenius norm of the broadcast difference
+                mirrored = float(np.linalg.norm(c_in[i].reshape(-1, 1) - c_new[i].reshape(1, -1)) / np.linalg.norm(cn))
+                if rel_close(diffs[i], mirrored, rtol):
+                    rec['quirks'].append(dict(kind='first recorded diff of a model whose initial estimate has shape (m,1) is the norm of the '
+                                                   'broadcast (m,m) difference over ||coef_new||', recorded=diffs[i], relative_change=true))
+                else:
+                    fail('first recorded diff is neither the relative change nor its (m,1)-broadcast form', recorded=diffs[i], true=true, mirrored=mirrored)
             else:
                 fail('recorded diff is not ||c - c_new|| / ||c_new||', it=i, recorded=diffs[i], true=true)
     # expected values of the observables at the coefficients entering each iteration (NumPy)
@@ -458,7 +463,7 @@ def run_config(desc, cfg, rtol=1e-9):
     rec['coef_in'] = [c.ravel().tolist() for c in c_in]
     rec['coef_final'] = np.asarray(gA.coef_).ravel().tolist()
     if w is not None and k and any(not rel_close(a, b, 1e-6) for a, b in zip(dev_exp, dev_w)):
-        rec['suspected'].append(dict(kind='logged deviance ignores the sample weights', unweighted=dev_exp[-1], weighted=dev_w[-1]))
+        rec['quirks'].append(dict(kind='logged deviance is unweighted (the Deviance callback is not given the sample weights)', unweighted=dev_exp[-1], weighted=dev_w[-1]))
     # built-in logs of run A against the oracle's values
     _oracle_builtin_logs(fail, logsA, a_items, k, dev_exp, acc_exp, c_in, diffs, rtol, run='A')
     rec['A'] = observe(gA, outA, probe_name)
@@ -768,8 +773,8 @@ def descs_for(ctx):
 # streams
 # --------------------------------------------------------------------------------------------
 def report_record(ctx, st, rec):
-    """oracle findings of one record -> ctx.fail / suspected-defect counters"""
-    for s in rec.get('suspected', []):
+    """oracle findings of one record -> ctx.fail; documented behaviour outside the property text -> 'observed-quirk' counters"""
+    for s in rec.get('quirks', []):
         ctx.count('observed-quirk', s['kind'])
     for f in rec['fails']:
         sig = dict(stream=st, cls=rec['desc']['cls'], kind=f['kind'])
